@@ -85,6 +85,8 @@ def parse_line(line):
             elif t[3] != "-":
                 mg = {int(e.split(":")[0], 16): (e.split(":")[1][0], int(e.split(":")[1][1:])) for e in t[3].split(",")}
             d.update(slots=int(t[1]), maxpdu=int(t[2]), mgr=mg)
+            if len(t) > 4:
+                d.update(crc=int(t[4]))
         elif k == "prov":
             d.update(len=int(t[1]), fill=int(t[2]))
         elif k == "reprov":
@@ -298,7 +300,7 @@ def suite_reuse(rng, tier):
         open_trains = []
         for a in seq:
             if a[0] == "setcrc":
-                s.enc("set_crc")
+                s.enc("set_crc", 0)
             elif a[0] in ("fragstart", "fragalias"):
                 # a train that stays open while other packets are sent (interleaved traffic with re-use on)
                 # (frag ids on slots 0, 2, 3 of the 4-slot receiver: the plain sends use id 5, slot 1; an id
